@@ -4,6 +4,6 @@
 EXTENDS PidAlloc
 VARIABLE sched
 HInit == Init /\ sched = <<>>
-HNext == \E t \in Threads : PStep(t) /\ sched' = Append(sched, t)
+HNext == (\E t \in Threads : PStep(t) /\ sched' = Append(sched, t)) /\ UNCHANGED origin
 HSpec == HInit /\ [][HNext]_<<vars, sched>>
 =============================================================================
